@@ -1,5 +1,6 @@
 """C09 - URI / component list / wire representations of names are mutually consistent."""
 import itertools
+import struct
 
 from hypothesis import strategies as st
 
@@ -177,9 +178,22 @@ def _check_single(r, comps, rep):
         r.bad('C09/canonical-uri-roundtrip', f'from_str({cu!r}) -> {[bytes(c).hex() for c in fs]} expected {[e.hex() for e in enc]}')
     # alternate URI
     su = Name.to_str(enc)
-    su_ref = '/' + '/'.join(ref_comp_alt(t, v) for t, v in comps) + ('/' if comps and comps[-1] == (8, b'') else '')
-    if su != su_ref:
-        r.bad('C09/uri-text', f'{su!r} != {su_ref!r}')
+    long_number = any(t in ALT and len(v) > 1000 for t, v in comps)
+    if long_number:
+        # a typed-number component too long for a decimal rendering: any rendering will do that reads back as the same number
+        try:
+            fs = Name.from_str(su)
+        except (ValueError, struct.error):
+            fs = None       # (reading back a number wider than 8 octets is not promised; rendering it must not fail)
+        same = fs is None or len(fs) == len(enc) and all(
+            Component.get_type(a) == t and (int.from_bytes(bytes(Component.get_value(a)), 'big') == int.from_bytes(v, 'big')
+                                            if t in ALT else bytes(a) == e) for a, e, (t, v) in zip(fs, enc, comps))
+        if not same:
+            r.bad('C09/uri-roundtrip/long-number', f'{su[:80]!r}')
+    else:
+        su_ref = '/' + '/'.join(ref_comp_alt(t, v) for t, v in comps) + ('/' if comps and comps[-1] == (8, b'') else '')
+        if su != su_ref:
+            r.bad('C09/uri-text', f'{su!r} != {su_ref!r}')
     if all(canonical_nni(v) for t, v in comps if t in ALT):
         fs = Name.from_str(su)
         if [bytes(c) for c in fs] != enc:
@@ -268,6 +282,17 @@ def _pair(draw):
         v = draw(st.binary(min_size=n, max_size=n))
         a.insert(draw(st.integers(0, len(a))), [draw(st.sampled_from([8, 8, 32, 300])), v.hex()])
         a = a[:8]
+    elif draw(st.integers(0, 9)) == 0:
+        # magnitudes between the usual boundaries: one component of 1.7k..8k octets (any type, typed numbers included), or a
+        # name of 17..100 one-octet components
+        if draw(st.booleans()):
+            n = draw(st.sampled_from([1700, 1786, 1787, 2000, 3000, 8000]))
+            fill = draw(st.integers(0, 255))
+            a.insert(draw(st.integers(0, len(a))), [draw(st.sampled_from([8, 50, 54, 58, 32, 52])),
+                                                    (bytes([fill, (fill + 1) % 256]) * (n // 2 + 1))[:n].hex()])
+            a = a[:4]
+        else:
+            a = [[8, bytes([97 + i % 26]).hex()] for i in range(draw(st.sampled_from([17, 33, 40, 100])))]
     mode = draw(st.integers(0, 5))
     b = None
     if mode == 0:
